@@ -1163,6 +1163,58 @@ func HarnessC13Tokens5() { c13Tokens(5, 8) }
 func HarnessC13Tokens6() { c13Tokens(6, 8) }
 func HarnessC13Tokens7() { c13Tokens(7, 8) }
 
+// HarnessC13Imports: a two-module project whose entry module carries a malformed, missing, duplicated, misplaced or
+// self-referring import statement (chosen symbolically from the forms below, before or after a declaration): the
+// real front end (lexer .. type checker, modules in pipeline order) comes back without a run-time error, reports at
+// least one error unless the project is well formed, and every diagnostic points inside a file.
+func HarnessC13Imports() {
+	forms := []struct {
+		text string
+		ok   bool
+	}{
+		{"import \"p/lib\";", true},
+		{"import \"p/lib\" as l2;", true},
+		{"import ;", false},
+		{"import", false},
+		{"import \"p/lib\"", false},
+		{"import \"p/lib\" as ;", false},
+		{"import \"p/lib\" as 5;", false},
+		{"import \"\";", false},
+		{"import \"p/lib\" \"x\";", false},
+		{"import p/lib;", false},
+		{"import \"nope/missing\";", false},
+		{"import \"p/app\";", false},
+		{"import \"p/lib\"; import \"p/lib\";", false},
+		{"import \"p/lib\" as a; import \"p/lib\" as a;", false},
+		{"import import \"p/lib\";", false},
+		{"import \"p/lib\";;", false},
+	}
+	f := forms[verifrt.Choice("form", len(forms))]
+	late := verifrt.Choice("late", 2) == 1 // the import follows a declaration (not allowed)
+	lib := "fn Seven() -> i32 { return 7; }\n"
+	app := f.text + "\nfn main() { }\n"
+	if late {
+		app = "let g: i32 = 1;\n" + f.text + "\nfn main() { }\n"
+	}
+	verifrt.StepBudget(6000000, "the front end does not terminate within 6,000,000 interpreted instructions on a project with a malformed import")
+	o := RunProject([]string{"p/lib", "p/app"}, []string{lib, app})
+	verifrt.StepBudget(0, "")
+	if f.ok && !late {
+		verifrt.Assert(o.Accepted(), "CALIBRATION: a project with a well-formed import is rejected: "+o.Messages())
+	}
+	if late {
+		verifrt.Assert(!o.Accepted(), "an import statement after a declaration is accepted")
+	}
+	for _, d := range o.Ctx.Diagnostics.Diagnostics() {
+		for _, l := range d.Labels {
+			if l.Location == nil || l.Location.Start == nil {
+				continue
+			}
+			verifrt.Assert(l.Location.Start.Line >= 1 && l.Location.Start.Line <= 6 && l.Location.Start.Index <= len(app)+len(lib), "a diagnostic points outside the input files")
+		}
+	}
+}
+
 // HarnessC13Bytes: one byte of a short program is replaced by a SYMBOLIC byte (any ASCII value except a digit): the
 // front end terminates within the bound without panicking.
 func HarnessC13Bytes() {
